@@ -371,7 +371,7 @@ class History:
                 tail += '[%s]' % qual
             if rnd.random() < 0.75:
                 ne = len(seg.seg_data)
-                ele = rnd.randint(1, max(1, ne + 1)) if rnd.random() < 0.9 else rnd.choice([0, 99, ne + 3])
+                ele = min(99, rnd.randint(1, max(1, ne + 1)) if rnd.random() < 0.9 else rnd.choice([0, 99, ne + 3]))
                 tail += '%02d' % ele
                 if rnd.random() < 0.2:
                     tail += '-%d' % rnd.choice([1, 1, 2, 3, 0])
@@ -667,7 +667,7 @@ class History:
             if e is None:
                 self.law_checks += 1
                 g, ge = self.call(lambda: n.get_value(p))
-                self.check_get_set(p, val, g, ge, what)
+                self.check_get_set(n, p, val, g, ge, what)
                 self.check_frame(pre_st, ser_struct(root), what)
             else:
                 if post != pre:
@@ -783,13 +783,15 @@ class History:
             if segs & set(ser_ids(rt)):
                 self.fail('pred:copy-shares-segment', '%s: a Segment object is shared with tree #%d' % (what, i))
 
-    def check_get_set(self, p, val, g, ge, what):
+    def check_get_set(self, n, p, val, g, ge, what):
         ups, rest = my_split_path(p)
         last = rest.split('/')[-1]
         m = REFDES.match(last.rstrip('\n') if last.endswith('\n') else last)
         if ge is not None:
             self.fail('pred:get-after-set-raises', '%s succeeded, then get_value raised %s' % (what, type(ge).__name__))
         has_sub = bool(m and m.group(4))
+        if has_sub and n.type == 'loop' and int(m.group(4)[1:]) == 0:
+            has_sub = False      # a loop node re-formats the designator: '-0' is dropped (whole element)
         want = norm_value(val, ':', has_sub)
         if g == want:
             return
@@ -880,6 +882,41 @@ class History:
                                       % (x.id, path, par.id), len(self.ops)))
             return
 
+    def probe_first_instance(self):
+        """D35, looked for deterministically: a segment id present in a later instance of a repeated child loop but
+        not in the first instance: exists() sees it, get_value()/set_value() do not"""
+        for root in self.roots:
+            if root is None or root.type != 'loop':
+                continue
+            for par, _ in live_nodes(root):
+                if par.type != 'loop':
+                    continue
+                first = {}
+                for c in par.children:
+                    if c.type != 'loop':
+                        continue
+                    lid = c.x12_map_node.id
+                    if lid not in first:
+                        first[lid] = c
+                        continue
+                    have = set(k.x12_map_node.id for k in first[lid].children if k.type == 'seg')
+                    for k in c.children:
+                        if k.type == 'seg' and k.x12_map_node.id not in have:
+                            p = '%s/%s01' % (lid, k.x12_map_node.id)
+                            self.law_checks += 1
+                            ex, e1 = self.call(lambda: par.exists(p))
+                            g, e2 = self.call(lambda: par.get_value(p))
+                            _, e3 = self.call(lambda: par.set_value(p, 'Q'))
+                            if e1 is None and ex and e2 is None and g is None and type(e3).__name__ == 'X12PathError':
+                                self.findings.append(('pred:get-value-first-instance-only',
+                                                      'loop %s: exists(%r) is True, get_value -> None, set_value raises X12PathError '
+                                                      '(the segment is in a later %s instance)' % (par.id, p, lid), len(self.ops)))
+                            elif e1 is None and ex:
+                                self.fail('pred:path-exists-but-get-set-fails',
+                                          'loop %s: exists(%r) True, get_value -> %r / %s, set_value -> %s' %
+                                          (par.id, p, g, type(e2).__name__, type(e3).__name__))
+                            return
+
     def run(self, length):
         try:
             for _ in range(length):
@@ -887,6 +924,7 @@ class History:
                     break
                 self.step()
             self.probes()
+            self.probe_first_instance()
         except Violation as v:
             self.violation = v
 
@@ -905,29 +943,38 @@ class History:
 
 # ------------------------------------------------------------------------------------ cases
 
-def documents(rnd, ndocs):
+def make_document(k, seed):
+    """document number k of a run: map = k-th selectable index entry (round robin), generator options from the seed"""
     from . import gendoc
+    rnd = random.Random(seed)
     ents = gendoc.index_entries()
-    docs = []
-    for i in range(ndocs):
-        m = ents[i % len(ents)]
-        g = gendoc.Gen(m['map_file'], m['icvn'], m['vriic'], m['fic'], seed=rnd.randrange(1 << 30),
-                       p_opt=rnd.choice([0.1, 0.2, 0.35, 0.5]), max_rep=rnd.choice([1, 2, 2, 3]), tspc=m['tspc'])
-        text = g.doc()
-        pool = []
-        lids = []
-        for s, mn in g.segs:
-            par = mn.parent
-            gpar = getattr(par, 'parent', None)
-            anchor = bool(par is not None and par.is_loop() and par.get_first_seg() is mn)
-            pool.append((s.format(), par.get_path(), gpar.get_path() if gpar is not None and hasattr(gpar, 'get_path') else '', anchor))
-            x = par
-            while x is not None and hasattr(x, 'pos_map') and x.is_loop():
-                if x.id not in lids and x.id != 'ISA_LOOP':
-                    lids.append(x.id)
-                x = x.parent
-        docs.append({'map': m['map_file'], 'text': text, 'pool': pool, 'loops': lids})
-    return docs
+    m = ents[k % len(ents)]
+    g = gendoc.Gen(m['map_file'], m['icvn'], m['vriic'], m['fic'], seed=rnd.randrange(1 << 30),
+                   p_opt=rnd.choice([0.1, 0.2, 0.35, 0.5]), max_rep=rnd.choice([1, 2, 2, 3]), tspc=m['tspc'])
+    text = g.doc()
+    pool = []
+    lids = []
+    for s, mn in g.segs:
+        par = mn.parent
+        gpar = getattr(par, 'parent', None)
+        anchor = bool(par is not None and par.is_loop() and par.get_first_seg() is mn)
+        pool.append((s.format(), par.get_path(), gpar.get_path() if gpar is not None and hasattr(gpar, 'get_path') else '', anchor))
+        x = par
+        while x is not None and hasattr(x, 'pos_map') and x.is_loop():
+            if x.id not in lids and x.id != 'ISA_LOOP':
+                lids.append(x.id)
+            x = x.parent
+    return {'map': m['map_file'], 'text': text, 'pool': pool, 'loops': lids}
+
+
+def one_map(t):
+    """all nodes of the tree hang off one loaded map object (a 278 document switches maps at BHT: such a tree mixes
+    nodes of two map objects and is outside the model, which gives a tree one map)"""
+    try:
+        enc_tree(t, MapEnc(t.x12_map_node), [])
+        return True
+    except KeyError:
+        return False
 
 
 def choose_trees(doc, rnd, want):
@@ -943,7 +990,7 @@ def choose_trees(doc, rnd, want):
             raise
         except Exception:
             continue      # reader defects belong to C09 (D10, D11)
-        cand = [(lid, i, size(t)) for i, t in enumerate(ts)]
+        cand = [(lid, i, size(t)) for i, t in enumerate(ts) if one_map(t)]
         cand = [c for c in cand if 3 <= c[2] <= MAX_NODES]
         rnd.shuffle(cand)
         out += cand[:2]
@@ -996,17 +1043,23 @@ def evaluate(res, hs, built):
                 break
 
 
+def doc_job(args):
+    """all histories of one document (runs in a worker process in the thorough tier)"""
+    k, seed, per_doc = args
+    rnd = random.Random(seed)
+    doc = make_document(k, rnd.randrange(1 << 30))
+    trees = choose_trees(doc, rnd, 6)
+    out = []
+    for i in range(per_doc if trees else 0):
+        lid, idx, _ = trees[i % len(trees)]
+        out.append(worker((doc, lid, idx, rnd.randrange(1 << 30), rnd.choice([6, 15, 25, 40, 40]))))
+    return out
+
+
 def plan(tier, rnd):
     ndocs = 44 if tier == 'quick' else 880
     per_doc = 9 if tier == 'quick' else 46
-    docs = documents(rnd, ndocs)
-    jobs = []
-    for d in docs:
-        trees = choose_trees(d, rnd, 6)
-        for k in range(per_doc if trees else 0):
-            lid, idx, _ = trees[k % len(trees)]
-            jobs.append((d, lid, idx, rnd.randrange(1 << 30), rnd.choice([6, 15, 25, 40, 40])))
-    return docs, jobs
+    return [(k, rnd.randrange(1 << 30), per_doc) for k in range(ndocs)]
 
 
 def run(tier):
@@ -1017,18 +1070,20 @@ def run(tier):
     px()
     built = common.proof_stage(res, 'C10')
     rnd = random.Random(common.seed() * 104729 + 10)
-    docs, jobs = plan(tier, rnd)
+    jobs = plan(tier, rnd)
     kinds, outcomes, loops, maps = {}, {}, {}, {}
-    nops = 0
+    nops = nhist = 0
     pool = None
     if tier == 'thorough':
         import multiprocessing
         pool = multiprocessing.get_context('fork').Pool(min(16, os.cpu_count() or 1))
     try:
-        for b in range(0, len(jobs), 800):
-            part = jobs[b:b + 800]
-            hs = pool.map(worker, part, chunksize=8) if pool is not None else [worker(j) for j in part]
+        for b in range(0, len(jobs), 64):
+            part = jobs[b:b + 64]
+            per_doc = pool.map(doc_job, part, chunksize=1) if pool is not None else [doc_job(j) for j in part]
+            hs = [h for lst in per_doc for h in lst]
             evaluate(res, hs, built)
+            nhist += len(hs)
             for h in hs:
                 nops += len(h['ops'])
                 for k, v in h['kinds'].items():
@@ -1044,8 +1099,8 @@ def run(tier):
     finally:
         if pool is not None:
             pool.terminate()
-    res.notes['histories'] = len(jobs)
-    res.notes['documents'] = len(docs)
+    res.notes['histories'] = nhist
+    res.notes['documents'] = len(jobs)
     res.notes['api_calls'] = nops
     res.notes['op_distribution'] = {OP_NAME[k]: v for k, v in sorted(kinds.items())}
     res.notes['outcome_kinds'] = dict(sorted(outcomes.items()))
@@ -1055,7 +1110,7 @@ def run(tier):
     res.assumptions = [
         'calls are made on live nodes of a tree (not on tombstones or swept objects); add_node is given a detached copy',
         'on a detached copy of an inner node no path climbs above the copy\'s root (probed separately: pred:copy-root-keeps-original-parent)',
-        'no ISA segment inside a tree (loop ids below ISA_LOOP); terminators are single characters',
+        'no ISA segment inside a tree (loop ids below ISA_LOOP); terminators are single characters; all nodes of a tree belong to one loaded map (no 278 map switch inside the tree)',
         'add_segment / add_loop / delete_segment are given strings (the Segment-object form only skips the parse)',
         'get_set law: the written element is not the qualifier element named in the path',
     ]
